@@ -75,7 +75,7 @@ SCancel ==
 
 SProgress ==
   /\ Is("Progress") /\ now = Ev.t
-  /\ inq # <<>> /\ Head(inq).n = Ev.n /\ ProgressHit(Ev.c, Head(inq))
+  /\ CanRecv(Ev.c) /\ NextFor(Ev.c).n = Ev.n /\ ProgressHit(Ev.c, NextFor(Ev.c))
   /\ Recv(Ev.c) /\ Consume
   /\ Flag(Ev.ok, "ProgressValues")
 
@@ -85,7 +85,7 @@ SComplete ==
   /\ IF st[Ev.c] = "done"
      THEN outcome[Ev.c].kind = Ev.kind /\ UNCHANGED vars     \* completed by an earlier logged step
      ELSE /\ \/ /\ Ev.kind \in {"result", "error"}
-                /\ inq # <<>> /\ Head(inq).n = Ev.n /\ Recv(Ev.c)
+                /\ CanRecv(Ev.c) /\ NextFor(Ev.c).n = Ev.n /\ Recv(Ev.c)
              \/ /\ Ev.kind = "timeout" /\ Deadline(Ev.c)
           /\ outcome'[Ev.c].kind = Ev.kind
 
@@ -101,6 +101,10 @@ SilentRecv ==
   /\ \E c \in Callers :
        /\ Recv(c) /\ st'[c] = "wait" /\ progLog' = progLog
   /\ UNCHANGED <<tid, l, bad>>
+SilentEnter ==
+  /\ More
+  /\ \E c \in Callers : EnterRecv(c)
+  /\ UNCHANGED <<tid, l, bad>>
 SilentPoll ==
   /\ More
   /\ \E c \in Callers : PollTimeout(c) /\ st'[c] = "wait"
@@ -112,7 +116,7 @@ SilentAdvance ==
 
 StrictNext ==
   \/ SStart \/ SWire \/ SArrive \/ SCancel \/ SProgress \/ SComplete \/ SEnd
-  \/ SilentRecv \/ SilentPoll \/ SilentAdvance
+  \/ SilentRecv \/ SilentEnter \/ SilentPoll \/ SilentAdvance
 
 -----------------------------------------------------------------------------
 (* Observer mode: state rebuilt from the logged fields; inq keeps every arrival *)
@@ -123,7 +127,7 @@ OStart ==
   /\ startedAt' = [startedAt EXCEPT ![Ev.c] = Ev.t]
   /\ st' = [st EXCEPT ![Ev.c] = "wait"]
   /\ deadline' = [deadline EXCEPT ![Ev.c] = Ev.t + cfg[Ev.c].T]
-  /\ UNCHANGED <<inq, narr, cfg, pollAt, outcome, reqWritten, cancelNotifs, cancelled, cancelAt, progLog, progArr, firstMatch>>
+  /\ UNCHANGED <<inq, narr, cfg, pollAt, outcome, reqWritten, cancelNotifs, cancelled, cancelAt, progLog, progArr, firstMatch, entering, waitq, hand>>
 
 OWire ==
   /\ Is("Wire") /\ Consume /\ Flag(Ev.ok, "WireContent")
@@ -133,7 +137,7 @@ OWire ==
      ELSE IF Ev.w = "request"
      THEN reqWritten' = [reqWritten EXCEPT ![Ev.c] = @ + 1] /\ UNCHANGED cancelNotifs
      ELSE cancelNotifs' = [cancelNotifs EXCEPT ![Ev.c] = @ + 1] /\ UNCHANGED reqWritten
-  /\ UNCHANGED <<inq, narr, cfg, st, deadline, pollAt, outcome, cancelled, cancelAt, progLog, progArr, firstMatch, startedAt>>
+  /\ UNCHANGED <<inq, narr, cfg, st, deadline, pollAt, outcome, cancelled, cancelAt, progLog, progArr, firstMatch, startedAt, entering, waitq, hand>>
 
 OArrive ==
   /\ Is("Arrive") /\ Consume /\ UNCHANGED bad
@@ -145,20 +149,20 @@ OArrive ==
                       THEN [firstMatch EXCEPT ![m.id] = m] ELSE firstMatch
      /\ progArr' = IF m.k = "prog" /\ m.id \in Callers
                    THEN [progArr EXCEPT ![m.id] = Append(@, [n |-> m.n, at |-> m.at])] ELSE progArr
-  /\ UNCHANGED <<cfg, st, deadline, pollAt, outcome, reqWritten, cancelNotifs, cancelled, cancelAt, progLog, startedAt>>
+  /\ UNCHANGED <<cfg, st, deadline, pollAt, outcome, reqWritten, cancelNotifs, cancelled, cancelAt, progLog, startedAt, entering, waitq, hand>>
 
 OCancel ==
   /\ Is("Cancel") /\ Consume /\ UNCHANGED bad
   /\ now' = Ev.t
   /\ cancelled' = IF st[Ev.c] = "done" THEN cancelled ELSE [cancelled EXCEPT ![Ev.c] = TRUE]
   /\ cancelAt' = IF st[Ev.c] = "done" THEN cancelAt ELSE [cancelAt EXCEPT ![Ev.c] = Ev.t]
-  /\ UNCHANGED <<inq, narr, cfg, st, deadline, pollAt, outcome, reqWritten, cancelNotifs, progLog, progArr, firstMatch, startedAt>>
+  /\ UNCHANGED <<inq, narr, cfg, st, deadline, pollAt, outcome, reqWritten, cancelNotifs, progLog, progArr, firstMatch, startedAt, entering, waitq, hand>>
 
 OProgress ==
   /\ Is("Progress") /\ Consume /\ Flag(Ev.ok, "ProgressValues")
   /\ now' = Ev.t
   /\ progLog' = [progLog EXCEPT ![Ev.c] = Append(@, Ev.n)]
-  /\ UNCHANGED <<inq, narr, cfg, st, deadline, pollAt, outcome, reqWritten, cancelNotifs, cancelled, cancelAt, progArr, firstMatch, startedAt>>
+  /\ UNCHANGED <<inq, narr, cfg, st, deadline, pollAt, outcome, reqWritten, cancelNotifs, cancelled, cancelAt, progArr, firstMatch, startedAt, entering, waitq, hand>>
 
 OComplete ==
   /\ Is("Complete") /\ Consume /\ Flag(Ev.ok, "PayloadExact")
@@ -169,7 +173,7 @@ OComplete ==
          src |-> IF Ev.n \in 1..Len(inq) THEN inq[Ev.n] ELSE None,
          t |-> Ev.t,
          pre |-> reqWritten[Ev.c] = 0]]
-  /\ UNCHANGED <<inq, narr, cfg, deadline, pollAt, reqWritten, cancelNotifs, cancelled, cancelAt, progLog, progArr, firstMatch, startedAt>>
+  /\ UNCHANGED <<inq, narr, cfg, deadline, pollAt, reqWritten, cancelNotifs, cancelled, cancelAt, progLog, progArr, firstMatch, startedAt, entering, waitq, hand>>
 
 OEnd ==
   /\ Is("End") /\ Consume /\ UNCHANGED vars
